@@ -191,12 +191,19 @@ def run_case(case):
         for cno in list(by_step[st]):
             if cno not in cells:
                 del by_step[st][cno]      # boundary cells 0 / n+1 (constant boundary): not part of the column
+    if solid != "none":
+        # vacuity guard: the whole-cell read-out must really include the solid
+        if not any(r["sys_" + e] - r[e] > 1e-6 for cs_ in by_step.values() for r in cs_.values() for e in ("Na", "K", "Ca")):
+            raise RuntimeError("SYS() totals never exceed the dissolved totals although a solid is present: %r" % (case,))
     tag_cfg = "mode=%s stag=%d" % (case.get("mode", "plain"), 1 if stag else 0)
+    # the engine announces in a WARNING when it adds moles to repair a negative concentration in multicomponent diffusion
+    engine_added = "Negative concentration in MCD: added" in (res["warn"] or "")
+    added = " engine-warned-added-moles" if engine_added else ""
     problems = []
     worst = {}
     if "inventory" in reg:
         if solid == "none":
-            p, w = orc.check_inventory(by_step, cells, ["H", "O"] + ELEMENTS, "%s len=%s" % (tag_cfg, case["len"]))
+            p, w = orc.check_inventory(by_step, cells, ["H", "O"] + ELEMENTS, tag_cfg + (" len=equal" if case.get("mode", "plain") == "plain" else "") + added)
         else:
             ren = dict((st, dict((cno, dict([(e, r["sys_" + e]) for e in ["H", "O"] + ELEMENTS] + [("cb", r["cb"])])) for cno, r in cs.items())) for st, cs in by_step.items())
             p, w = orc.check_inventory(ren, cells, ["H", "O"] + ELEMENTS, "%s solid=%s" % (tag_cfg, solid))
@@ -234,8 +241,8 @@ def run_case(case):
     out["judged"] = sorted(reg)
     if dup:
         out["diagnostics"].append("%d duplicate (shift, cell) rows in selected output (last one used): %s" % (dup, case))
-    if "Negative" in (res["warn"] or "") or "negative" in (res["warn"] or ""):
-        out["diagnostics"].append("engine warning about negative concentrations: %s" % (case,))
+    if engine_added:
+        out["sample"]["engine_warned_added_moles"] = True
     return out
 
 
@@ -378,6 +385,10 @@ def explore(cs, ev, findings, pool, dl, judged):
     def tap(s, limit=6):
         for k in s.get("judged", ()):
             judged[k] = judged.get(k, 0) + 1
+        if s.get("engine_warned_added_moles"):
+            judged["(runs in which the engine warned that it added moles)"] = judged.get("(runs in which the engine warned that it added moles)", 0) + 1
+        if s.get("note"):
+            judged["(runs without a mixing step: nothing to judge)"] = judged.get("(runs without a mixing step: nothing to judge)", 0) + 1
         if len(ev.samples) < limit and (len(ev.samples) < 3 or s.get("judged")):
             orig(s, limit)
     ev.sample = tap
